@@ -182,6 +182,45 @@ Heads ==
      RuleHead("R", <<HeadArg("a", x), HeadArg("b", At(y, "items"))>>),
      RuleHead("R", <<HeadArg("b", At(x, "o")), HeadArg("a", At(y, "n"))>>) >>
 
+(* ---- C18: meaning-preserving rewrites, each applied at every position it fits ----*)
+MirrorOp(op) == CASE op = "lt" -> "gt" [] op = "gt" -> "lt" [] op = "le" -> "ge" [] op = "ge" -> "le" [] OTHER -> op
+RECURSIVE RwSwap(_), RwMirror(_), RwForm(_), RwAssoc(_), Conjuncts(_, _)
+\* swap the operands of every and_/or_
+RwSwap(c) == CASE c.k = "and" -> AndC(RwSwap(c.r), RwSwap(c.l), c.form)
+               [] c.k = "or"  -> OrC(RwSwap(c.r), RwSwap(c.l), c.form)
+               [] c.k = "not" -> NotC(RwSwap(c.c), c.form)
+               [] OTHER -> c
+\* a < b  as  b > a  (also moves a literal to the other side)
+RwMirror(c) == CASE c.k = "cmp" -> CmpC(MirrorOp(c.op), c.r, c.l)
+                 [] c.k = "and" -> AndC(RwMirror(c.l), RwMirror(c.r), c.form)
+                 [] c.k = "or"  -> OrC(RwMirror(c.l), RwMirror(c.r), c.form)
+                 [] c.k = "not" -> NotC(RwMirror(c.c), c.form)
+                 [] OTHER -> c
+\* in_(i, c) <-> contains(c, i);  and_/or_/not_ functions <-> the operators & | ~
+Toggle(form) == IF form = "fn" THEN "op" ELSE "fn"
+RwForm(c) == CASE c.k = "in"  -> InC(c.item, c.cont, IF c.form = "in_" THEN "contains" ELSE "in_")
+               [] c.k = "and" -> AndC(RwForm(c.l), RwForm(c.r), Toggle(c.form))
+               [] c.k = "or"  -> OrC(RwForm(c.l), RwForm(c.r), Toggle(c.form))
+               [] c.k = "not" -> NotC(RwForm(c.c), Toggle(c.form))
+               [] OTHER -> c
+\* (a & b) & c  <->  a & (b & c), same for |
+RwAssoc(c) == CASE c.k = "and" /\ c.l.k = "and" -> AndC(RwAssoc(c.l.l), AndC(RwAssoc(c.l.r), RwAssoc(c.r), c.form), c.form)
+                [] c.k = "and" /\ c.r.k = "and" -> AndC(AndC(RwAssoc(c.l), RwAssoc(c.r.l), c.form), RwAssoc(c.r.r), c.form)
+                [] c.k = "or" /\ c.l.k = "or"   -> OrC(RwAssoc(c.l.l), OrC(RwAssoc(c.l.r), RwAssoc(c.r), c.form), c.form)
+                [] c.k = "or" /\ c.r.k = "or"   -> OrC(OrC(RwAssoc(c.l), RwAssoc(c.r.l), c.form), RwAssoc(c.r.r), c.form)
+                [] c.k = "and" -> AndC(RwAssoc(c.l), RwAssoc(c.r), c.form)
+                [] c.k = "or"  -> OrC(RwAssoc(c.l), RwAssoc(c.r), c.form)
+                [] c.k = "not" -> NotC(RwAssoc(c.c), c.form)
+                [] OTHER -> c
+\* the operands of a maximal chain of the connective `kind` at the root
+Conjuncts(c, kind) == IF c.k = kind THEN Conjuncts(c.l, kind) \o Conjuncts(c.r, kind) ELSE <<c>>
+\* and_(a, b, c) / or_(a, b, c) as one call
+RwChain(c) == IF c.k \in {"and", "or"} /\ Len(Conjuncts(c, c.k)) > 2
+              THEN [k |-> "chain", op |-> c.k, cs |-> Conjuncts(c, c.k)] ELSE c
+\* several conditions passed to entity(...) / set_of(...)
+RwConj(c) == IF c.k = "and" THEN [k |-> "conj", cs |-> Conjuncts(c, "and")] ELSE c
+Variants(c) == << RwSwap(c), RwMirror(c), RwForm(c), RwAssoc(c), RwChain(c), RwConj(c), RwSwap(RwMirror(RwForm(c))) >>
+
 NotDepth(c) == IF c.k # "not" THEN 0 ELSE IF c.c.k # "not" THEN 1 ELSE 2
 
 RECURSIVE NLeaves(_)
